@@ -23,10 +23,20 @@ cross-checked against each other inside the drivers (a disagreement is a
 harness error, raised as an exception).  The expected iteration sequence is the
 member list sorted lexicographically by the depth-first list of decisions.
 
+Drivers.  The per-spec checks (`_size_checks`, `_iter_checks`,
+`_member_checks`, `_random_checks`, `_sweep_checks`) take a `Cx`: a live spec
+object plus the model it must behave as.  Besides specs built from their model
+(space_size / iteration / membership / random+sweeping drivers, and the family
+of non-empty single-point candidate sub-spaces) the same checks are run on
+spec objects that were used and then edited in place or copied
+(`drv_edited_specs`: the statement speaks of *every* specification, however
+the object came about), and `drv_bind_sequences` / the retry in
+`_check_accept` make sure that binding decides by membership at every attempt
+on the same DNA object (a refusal is final and leaves the DNA unbound).
+
 This module is also imported by c12_dna_views.py (model, builders, oracles).
 """
 import itertools
-import os
 import random as _random
 import time
 
@@ -1013,7 +1023,7 @@ def _size_checks(cx, nested=True):
 def drv_space_size(tier, seed):
   """space_size == number of members, over an exhaustive family of specs."""
   if tier == 'quick':
-    w_all, w_rand, nmax, budget = 3, 5, 3, 100
+    w_all, w_rand, nmax, budget = 3, 5, 3, 70
   else:
     w_all, w_rand, nmax, budget = 4, 5, 4, 800
   rec = Recorder(PROP, 'space_size equals the brute-force member count',
@@ -1235,7 +1245,7 @@ def drv_iteration(tier, seed):
              'otherwise successor checks at first/last/boundary '
              'and seeded random members'))
   r = rng(seed, 'c11.iter')
-  budget_s = 36 if tier == 'quick' else 520
+  budget_s = 30 if tier == 'quick' else 520
   t0 = time.process_time()
   fixed, specs = _iteration_specs(tier, r)
   for i, m in enumerate(specs):
@@ -1343,13 +1353,14 @@ def _check_accept(cx, api, kind, tree):
     again = (
         f'd = {dsrc(actual)}\nfor attempt in (1, 2):\n'
         '  try: d.use_spec(spec)\n  except (ValueError, TypeError): pass\n'
-        '  else: raise AssertionError(f"non-member accepted at attempt {attempt}")\n'
-        '  assert d.spec is None, "refused DNA reports a spec"\n')
+        '  else: raise AssertionError(f"non-member accepted at attempt {attempt}")\n')
     rec.case(cx.cid('bind/refused-dna-stays-unbound'), (cx.label, actual),
              dna.spec is None,
              f'use_spec refused the non-member {actual!r} ({reason}) but the '
              f'DNA reports spec={type(dna.spec).__name__} afterwards',
-             cx.wit(again))
+             cx.wit(f'd = {dsrc(actual)}\ntry: d.use_spec(spec)\n'
+                    'except (ValueError, TypeError): pass\n'
+                    'assert d.spec is None, "refused DNA reports a spec"'))
     rej2, _ = raises(lambda: dna.use_spec(spec))
     rec.case(cx.cid('bind/refusal-is-final'), (cx.label, actual), rej2,
              f'non-member {actual!r} ({reason}): the first use_spec is '
@@ -1641,7 +1652,7 @@ def drv_single_point_subspaces(tier, seed):
   """Candidates that are non-empty sub-spaces with exactly one point."""
   rec = Recorder(
       PROP, 'conditional sub-spaces of size 1 that still hold decision points',
-      scope=('19 hand-picked specs + 6 seeded conditional choices (n=2, k<=2 '
+      scope=('19 hand-picked specs + 4 (thorough: 120) seeded conditional choices (n=2, k<=2 '
              '(thorough n<=3, k<=3), every distinct/sorted) whose candidates '
              'are drawn from {constant, oneof([c]), manyof(2,[c,c],sorted), '
              'manyof(2,[c],distinct=False), space of two forced elements, '
@@ -1651,20 +1662,24 @@ def drv_single_point_subspaces(tier, seed):
              'sweeping'))
   r = rng(seed, 'c11.single')
   specs = single_point_roots()
+  fixed = len(specs)
   menu = [C, S2] + SINGLE_POINT
   if tier == 'quick':
-    specs += conditional_family([2], [1, 2], menu, 16, r, 6)
+    specs += conditional_family([2], [1, 2], menu, 16, r, 4)
   else:
-    specs += conditional_family([2], [1, 2, 3], menu, 200)
-    specs += conditional_family([3], [1, 2, 3], menu, 200, r, 150)
+    specs += conditional_family([2], [1, 2, 3], menu, 200, r, 80)
+    specs += conditional_family([3], [1, 2, 3], menu, 200, r, 40)
   quick = tier == 'quick'
-  for m in specs:
+  t0 = time.process_time()
+  for i, m in enumerate(specs):
+    if i >= fixed and time.process_time() - t0 > 500:
+      break          # only the seeded samples are ever cut short (CPU time)
     cx = Cx(rec, m, r, tier)
     _size_checks(cx)
     _iter_checks(cx, 40 if quick else 260, light=quick)
-    _member_checks(cx, 3 if quick else 12, 8 if quick else 60,
+    _member_checks(cx, 3 if quick else 12, 6 if quick else 60,
                    4 if quick else 20)
-    _random_checks(cx, 3 if quick else 16)
+    _random_checks(cx, 2 if quick else 16)
     if len(cx.mem) <= (6 if quick else 36):
       _sweep_checks(cx, light=quick)
   return rec.result()
@@ -1690,8 +1705,8 @@ def _edit_bases(tier, r):
   extra = [m for m in handpicked_roots() + single_point_roots()
            + leaf_family(3, 3) if m not in bases and count_members(m) <= 30]
   if tier == 'quick':
-    return r.sample(bases, 8) + r.sample(extra, 2)
-  return bases + extra
+    return r.sample(bases, 7) + r.sample(extra, 2)
+  return bases + r.sample(extra, 24)
 
 
 COPIES = [('clone', 'spec.clone()'), ('deep-clone', 'spec.clone(deep=True)'),
@@ -1702,11 +1717,11 @@ COPIES = [('clone', 'spec.clone()'), ('deep-clone', 'spec.clone(deep=True)'),
 def drv_edited_specs(tier, seed):
   """The statement holds for a spec object after it was used and edited."""
   quick = tier == 'quick'
-  steps = 3 if quick else 6
-  cap = 12 if quick else 80
+  steps = 3 if quick else 5
+  cap = 12 if quick else 40
   rec = Recorder(
       PROP, 'a specification edited in place is again an exact specification',
-      scope=(f'{10 if quick else "all"} finite base specs (<=30 members), '
+      scope=(f'{9 if quick else 36} finite base specs (<=30 members), '
              f'each taken through a seeded chain of {steps} in-place edits '
              '(edit kinds taken round-robin: num_choices / distinct / sorted / '
              'several flags at once; append, insert, remove, replace a '
@@ -1727,7 +1742,10 @@ def drv_edited_specs(tier, seed):
   counter = 0
   copies = 0
   used = {}
-  for m0 in _edit_bases(tier, r):
+  t0 = time.process_time()
+  for ci, m0 in enumerate(_edit_bases(tier, r)):
+    if ci >= 12 and time.process_time() - t0 > 500:
+      break          # only the seeded extra chains are ever cut short
     env = {}
     exec(PRELUDE_SHORT + WARM, env)  # pylint: disable=exec-used
     setup = PRELUDE_SHORT + WARM + f'spec = {src(m0)}\n'
@@ -1750,10 +1768,7 @@ def drv_edited_specs(tier, seed):
       stmt = stmts[used[kind] % len(stmts)]
       try:
         exec('_use(spec)\n' + stmt, env)  # pylint: disable=exec-used
-      except Exception as e:  # pylint: disable=broad-except
-        if os.environ.get('C11_DEBUG'):
-          print('EDIT-REFUSED', setup[len(PRELUDE_SHORT) + len(WARM):], stmt,
-                type(e).__name__, str(e)[:200])
+      except Exception:  # pylint: disable=broad-except
         # The edit itself was refused or the prior use failed: no edited
         # specification exists (not this property's business); start afresh.
         env['spec'] = build(m)
@@ -1811,14 +1826,14 @@ def drv_edited_specs(tier, seed):
     setup += f'_use(spec); {stmts[0]}\n'
     cx = Cx(rec, new, r, tier, spec=env['spec'], setup=setup,
             label=setup[len(PRELUDE_SHORT) + len(WARM):],
-            pre=f'copy[{how}]-edited')
+            pre='edited-copy')
     _size_checks(cx)
     _iter_checks(cx, cap, light=True)
     _random_checks(cx, 2)
     setup += 'spec = orig\n'
     cx = Cx(rec, m, r, tier, spec=env['orig'], setup=setup,
             label=setup[len(PRELUDE_SHORT) + len(WARM):],
-            pre=f'original-of-edited-copy[{how}]')
+            pre='original-of-edited-copy')
     _size_checks(cx)
     _iter_checks(cx, cap, light=True)
   return rec.result()
